@@ -173,6 +173,8 @@ func main() {
 			fmt.Fprintln(w, iop(t[1:]))
 		case "FPS":
 			fmt.Fprintln(w, fps(t[1:]))
+		case "REUSE":
+			fmt.Fprintln(w, reuse(t[1:]))
 		case "ARRH":
 			// ARRH <all|six> op ; op ; ...
 			var ops []opT
